@@ -1013,7 +1013,15 @@ func (r *idxRun) podsFromSharedJob(jobName string, ixs []execution.ParallelIndex
 		}
 		cont.Env = append(cont.Env, corev1.EnvVar{Name: "M", Value: "${task.index_matrix." + k + "}"})
 	}
-	rj.Spec.Template.TaskTemplate.Pod = &execution.PodTemplateSpec{Spec: corev1.PodSpec{Containers: []corev1.Container{cont}}}
+	// the same template as init container and as second main container: every container list that
+	// SubstitutePodSpec rewrites is shared by all tasks of the Job (seed C14w4-2: the init containers were
+	// substituted in place, later indexes received the first index's values)
+	initc := *cont.DeepCopy()
+	initc.Name = "init"
+	side := *cont.DeepCopy()
+	side.Name = "side"
+	rj.Spec.Template.TaskTemplate.Pod = &execution.PodTemplateSpec{Spec: corev1.PodSpec{
+		InitContainers: []corev1.Container{initc}, Containers: []corev1.Container{cont, side}}}
 	before := rj.DeepCopy()
 	for _, p := range positions {
 		ix := ixs[p]
@@ -1044,18 +1052,24 @@ func (r *idxRun) podsFromSharedJob(jobName string, ixs []execution.ParallelIndex
 		if ix.IndexNumber != nil {
 			wantNum = strconv.FormatInt(*ix.IndexNumber, 10)
 		}
-		got := pod.Spec.Containers[0]
-		if got.Image != "img:"+wantNum || len(got.Args) != 2 || got.Args[0] != "--key="+wantKey || got.Args[1] != "--name="+pod.Name {
-			c.Violate("C14", "pod-carries-index", "pod %s created for index %s from a shared Job object received image %q args %q", pod.Name, showIdx(ix), got.Image, got.Args)
+		if len(pod.Spec.Containers) != 2 || len(pod.Spec.InitContainers) != 1 {
+			c.Violate("C14", "pod-carries-index", "pod %s for index %s has %d containers and %d init containers, the template 2 and 1", pod.Name, showIdx(ix), len(pod.Spec.Containers), len(pod.Spec.InitContainers))
+			continue
 		}
-		for i, k := range SortedKeys(keys) {
-			if i < len(got.Env) && got.Env[i].Value != ix.MatrixValues[k] {
-				c.Violate("C14", "pod-carries-index", "pod %s for index %s: ${task.index_matrix.%s} = %q", pod.Name, showIdx(ix), k, got.Env[i].Value)
+		for _, got := range []corev1.Container{pod.Spec.Containers[0], pod.Spec.Containers[1], pod.Spec.InitContainers[0]} {
+			if got.Image != "img:"+wantNum || len(got.Args) != 2 || got.Args[0] != "--key="+wantKey || got.Args[1] != "--name="+pod.Name {
+				c.Violate("C14", "pod-carries-index", "pod %s created for index %s from a shared Job object: container %s received image %q args %q", pod.Name, showIdx(ix), got.Name, got.Image, got.Args)
+			}
+			for i, k := range SortedKeys(keys) {
+				if i < len(got.Env) && got.Env[i].Value != ix.MatrixValues[k] {
+					c.Violate("C14", "pod-carries-index", "pod %s for index %s, container %s: ${task.index_matrix.%s} = %q", pod.Name, showIdx(ix), got.Name, k, got.Env[i].Value)
+				}
 			}
 		}
 		if !reflect.DeepEqual(before, rj) {
+			// reported once; the Job is NOT restored: the following indexes show what later tasks receive
 			c.Violate("C14", "pod-carries-index", "NewPod for index %s modified the Job object it was given (the pod template is shared by all tasks of the Job)", showIdx(ix))
-			rj = before.DeepCopy()
+			before = rj.DeepCopy()
 		}
 	}
 }
